@@ -5,7 +5,8 @@ open Genshi Genshi.Incl Genshi.Sexp
 
 /-
   verbs
-    render <inline|runtime> <fuel> <files> <entry> <markup|text> <data>
+    render <inline|inline-marked|runtime> <fuel> <files> <entry> <markup|text> <data>
+        (inline: prepared streams as the code leaves them; inline-marked: with the cost markers of the exact-fuel theorem)
         files = ( dir … )   dir = ( ( name kind body ) … )   body = N (ill-formed) | ( node … )
         node  = ( text s ) ( var x ) ( elem tag ( node … ) ) ( if ( var|not x ) ( node … ) )
                 ( for x xs ( node … ) ) ( def m ( node … ) ) ( call m ) ( match tag ( node … ) )
@@ -115,7 +116,8 @@ def handle : List Sexp → Option Sexp
       let data ← data? data
       if !modelled files then pure (.atom "unmodelled") else
       match mode with
-      | "inline" => pure (resOut (renderInline files entry kind data fuel))
+      | "inline" => pure (resOut (renderInlineReal files entry kind data fuel))
+      | "inline-marked" => pure (resOut (renderInline files entry kind data fuel))
       | "runtime" => pure (resOut (renderRuntime files entry kind data fuel))
       | _ => none
   | [.atom "inh", files] => do
